@@ -133,7 +133,7 @@ static std::string bad_vptr_key(const Registry& r, int m, const CallSpec& cs, co
     for (int i = 0; sig[i] && i < (int)out.arity; ++i)
         if (sig[i] >= 'A' && sig[i] <= 'Z')
             ++vi;
-    return std::string("bad-vptr-in-virtual_ptr:") + sig[out.arity] + ":" + route_name(cs.route[vi]);
+    return std::string(out.status == -3 ? "copying-a-virtual_ptr-changed-its-source:" : "bad-vptr-in-virtual_ptr:") + sig[out.arity] + ":" + route_name(cs.route[vi]);
 }
 
 static bool check_ran(CaseCtx& c, int m, const CallSpec& cs, const Sel& exp, const Outcome& out, const char* prop) {
@@ -142,7 +142,7 @@ static bool check_ran(CaseCtx& c, int m, const CallSpec& cs, const Sel& exp, con
     auto fail = [&](const char* key, const std::string& expected) {
         return c.run.violation(std::string(prop) + ":" + key, witness_json(c, "call", call_json(c.r, m, cs), expected, out.str()));
     };
-    if (out.kind == Outcome::OTHER_ERR && out.status == -2)
+    if (out.kind == Outcome::OTHER_ERR && (out.status == -2 || out.status == -3))
         return fail(bad_vptr_key(c.r, m, cs, out).c_str(), exp.str());
     if (out.kind != Outcome::RAN)
         return fail("error-instead-of-definition", exp.str());
@@ -229,7 +229,7 @@ bool monitor_calls(CaseCtx& c, const UpdateResult& u, unsigned flags, int max_tu
                                         witness_json(c, "call", call_json(c.r, (int)m, cs), exp.str(), out.str())))
                         return true;
                 }
-                if ((flags & MON_SELECT) && out.kind == Outcome::OTHER_ERR && out.status == -2) {
+                if ((flags & MON_SELECT) && out.kind == Outcome::OTHER_ERR && (out.status == -2 || out.status == -3)) {
                     if (c.run.violation(std::string(prop) + ":" + bad_vptr_key(c.r, (int)m, cs, out),
                                         witness_json(c, "call", call_json(c.r, (int)m, cs), exp.str(), out.str())))
                         return true;
